@@ -84,6 +84,26 @@ DESC = {
  'C19-B5': "bare `except:` narrowed to `except TypeError:` in the edge parsing of `SpikeTrain`: a numpy scalar edge raises IndexError",
  'C20-A5': "PSTH bin edges `t_start + (T/n)*arange(n+1)`: for some bin counts the last edge is one ulp below `t_end` and spikes on `t_end` are dropped",
  'C20-B5': "bare `except:` narrowed to `except TypeError:` in `generate_poisson_spikes`: a numpy scalar interval raises IndexError",
+ 'C05-A6': "empty-train shortcut in `_spike_sync_values` counts multiplicity on the CLOSED interval; needs an empty train and an interval end exactly on a spike",
+ 'C05-B6': "the single-pair branch of `_generic_profile_multi` unpacks the pair in reverse order: the order profile of a two-train list flips sign",
+ 'C07-A6': "`spikes1[i]-tau < spikes2[j]` instead of `spikes1[i]-spikes2[j] < tau` in `coincidence_python`: same mathematics, different rounding per argument order; needs decimal-grid times with a distance equal to the window up to rounding",
+ 'C07-B6': "`elif ... and t_f1 != t_f2` in `spike_distance_python` forgets the exhausted-train sentinel tie at `t_end`",
+ 'C09-A6': "vectorised constant add looks pieces up at their midpoints: when two merged breakpoints are adjacent doubles (0.3 vs 0.1+0.2) the midpoint rounds onto the upper one",
+ 'C09-B6': "`average_profile` skips by object identity (`profile is not first`): a profile listed again by reference is dropped from the sum but counted in the divisor",
+ 'C11-A6': "vectorised discrete add: `searchsorted` position N1 (the closing edge) also matches an operand event on `t_end`, which is folded into the edge entry",
+ 'C11-B6': "several intervals via `np.add.reduceat`: an interval without events contributes the next event instead of nothing",
+ 'C12-A6': "chained window comparison in `coincidence_single_python` (float operation order at a tie); decimal-grid times; `.pyx` untouched",
+ 'C12-B6': "`t_p1`/`t_p2` initialisation of `spike_distance_python` hoisted into the `>`/`else` branches (`==` widened to `<=`); only shows for a first spike BEFORE `t_start`",
+ 'C13-A6': "reconcile clips with two `searchsorted` cut points, the second computed before the first slice: a train with strays on both sides keeps one",
+ 'C13-B6': "global edges by one loop with `if start < ... elif end > ...`: a train that lowers the start is not considered for the end",
+ 'C14-A6': "pooled reconcile for lists of > 2 trains de-duplicates across train boundaries: a train whose first spike equals the previous train's last loses it",
+ 'C14-B6': "new `_prepare_spike_trains` helper selects by `indices` only inside the `Reconcile=True` block: with `Reconcile=False` `indices` is ignored",
+ 'C18-A6': "merged start-of-recording expression in `isi_distance_python`: a one-spike train on `t_start` gets a first ISI of 0 (NaN for two such trains)",
+ 'C18-B6': "`if interval[0] > interval[1]: raise` added to `PieceWiseLinFunc.avrg` before the pair/sequence distinction: a descending list of sub-intervals raises",
+ 'C19-A6': "save by `'\\n'.join(lines)` with a terminator only if the text does not already end in a newline: a trailing empty train is lost",
+ 'C19-B6': "time-series import split by `np.bincount(rows)` without `minlength`: trailing all-zero rows are dropped",
+ 'C20-A6': "two-train fast path of `merge_spike_trains` ranks both trains with `searchsorted(side='left')`: a shared spike time loses one copy",
+ 'C20-B6': "PSTH bin index computed as `int((t - t_start)/width)` without re-checking against the reported edges: a spike next to an interior edge lands in the neighbouring bin",
 }
 
 
@@ -92,6 +112,8 @@ def main():
     print("| id | change and what it needs to manifest | repo tests | caught by |")
     print("|---|---|---|---|")
     for sid in sorted(os.listdir(sd), key=lambda s: (s.split('-')[1][1:] or '1', s)):
+        if not os.path.isdir(os.path.join(sd, sid)):
+            continue
         mp = os.path.join(sd, sid, 'meta.json')
         if not os.path.exists(mp):
             continue
